@@ -232,10 +232,11 @@ theorem not_schedOk_nonSequence (T : Tables) (L : Lists) (k : NonSeq) (its : Lis
     ¬ SchedOk T L (.nonSequence k its) := by
   rintro ⟨ps, h, _⟩; cases h
 
-/-- sequences and non-iterables: the schedules for which every rejection is a schedule error -/
-def Schedule.isSeq : Schedule → Bool
-  | .nonSequence _ _ => false
-  | _ => true
+/-- the items an iterable schedule yields -/
+def Schedule.itemsOf? : Schedule → Option (List Item)
+  | .items l => some l
+  | .nonSequence _ l => some l
+  | .nonIterable => none
 
 theorem validateSchedulesAux_ok_iff (T : Tables) (hT : 1 ≤ T.minLen) (L : Lists) (ss : List Schedule)
     (i : Nat) :
@@ -267,7 +268,6 @@ theorem validateSchedulesAux_ok_iff (T : Tables) (hT : 1 ≤ T.minLen) (L : List
         · cases h
         · rename_i names hn
           split at h
-          · cases h
           · cases h
           · rename_i ho
             exact ⟨⟨names, hn, ho⟩, (ih _).1 h⟩
@@ -310,17 +310,20 @@ theorem validateItems_ne_keyError (T : Tables) (hK : KindsAreKeys T) (L : Lists)
   obtain ⟨_, it, _, _, _, h3, _⟩ := validateItems_error T L its j j' _ h
   exact validateItem_ne_keyError T hK L it h3
 
-/-- what an error of `_validate_schedules` means: the first schedule that is not well formed decides; a schedule
-that cannot be iterated gives the item error without an item position, otherwise it is an item error (position of
-its first failing item, that item's exception) if an item fails, otherwise an order error. -/
+/-- what an error of `_validate_schedules` means, for EVERY kind of schedule: the first schedule that is not well formed
+decides. A schedule that cannot be iterated gives the item error without an item position; an iterable (sequence or not)
+with a malformed item gives the item error at its first failing item; a sequence with fine items gives the order error of
+its kinds; an iterable that is not a sequence and whose items are fine gives the order error too. -/
 theorem validateSchedulesAux_error (T : Tables) (hT : 1 ≤ T.minLen) (hK : KindsAreKeys T) (L : Lists)
-    (ss : List Schedule) (i : Nat) (e : Err) (hseq : ∀ s ∈ ss, s.isSeq = true)
+    (ss : List Schedule) (i : Nat) (e : Err)
     (h : validateSchedulesAux T L ss i = .error e) :
     ∃ pre s post, ss = pre ++ s :: post ∧ (∀ x ∈ pre, SchedOk T L x) ∧ ¬ SchedOk T L s ∧
       ((s = .nonIterable ∧ e = .itemNoPos (i + pre.length)) ∨
-       (∃ its j ex, s = .items its ∧ e = .item (i + pre.length) j ex ∧ validateItems T L its 0 = .error (j, ex)) ∨
+       (∃ its j ex, s.itemsOf? = some its ∧ e = .item (i + pre.length) j ex ∧ validateItems T L its 0 = .error (j, ex)) ∨
        (∃ its names r, s = .items its ∧ e = .order (i + pre.length) r ∧ validateItems T L its 0 = .ok names ∧
-          validateOrder T names = .error r)) := by
+          validateOrder T names = .error r) ∨
+       (∃ k its names r, s = .nonSequence k its ∧ e = .order (i + pre.length) r ∧
+          validateItems T L its 0 = .ok names)) := by
   induction ss generalizing i with
   | nil => simp [validateSchedulesAux] at h
   | cons s rest ih =>
@@ -330,8 +333,20 @@ theorem validateSchedulesAux_error (T : Tables) (hT : 1 ≤ T.minLen) (hK : Kind
       injection h with h; subst h
       exact ⟨[], .nonIterable, rest, rfl, by simp, not_schedOk_nonIterable T L, Or.inl ⟨rfl, by simp⟩⟩
     | nonSequence k its =>
-      have := hseq (.nonSequence k its) (by simp)
-      simp [Schedule.isSeq] at this
+      simp only [validateSchedulesAux] at h
+      split at h
+      · rename_i j hj
+        exact absurd hj (validateItems_ne_keyError T hK L its 0 j)
+      · rename_i j ex hne hj
+        injection h with h; subst h
+        exact ⟨[], .nonSequence k its, rest, rfl, by simp, not_schedOk_nonSequence T L k its,
+          Or.inr (Or.inl ⟨its, j, ex, rfl, by simp, hj⟩)⟩
+      · rename_i names hn
+        have hres : ∃ r, e = .order i r := by
+          cases k <;> simp only [] at h <;> (try split at h) <;> injection h with h <;> exact ⟨_, h.symm⟩
+        obtain ⟨r, rfl⟩ := hres
+        exact ⟨[], .nonSequence k its, rest, rfl, by simp, not_schedOk_nonSequence T L k its,
+          Or.inr (Or.inr (Or.inr ⟨k, its, names, r, rfl, by simp, hn⟩))⟩
     | items its =>
       simp only [validateSchedulesAux] at h
       split at h
@@ -343,35 +358,13 @@ theorem validateSchedulesAux_error (T : Tables) (hT : 1 ≤ T.minLen) (hK : Kind
         rw [schedOk_iff T hT]; rintro ⟨names, h1, _⟩; rw [hj] at h1; cases h1
       · rename_i names hn
         split at h
-        · rename_i ho
-          -- `schedule[0]` on an empty schedule: impossible when minLen ≥ 1
-          exfalso
-          unfold validateOrder at ho
-          split at ho
-          · cases ho
-          · rename_i hlen
-            cases names with
-            | nil => simp at hlen; omega
-            | cons a t =>
-              have : ∃ l, (a :: t).getLast? = some l := by
-                cases hh : (a :: t).getLast? with
-                | none => simp at hh
-                | some l => exact ⟨l, rfl⟩
-              obtain ⟨l, hl⟩ := this
-              simp only [List.head?_cons, hl] at ho
-              split at ho
-              · cases ho
-              · split at ho
-                · cases ho
-                · have := checkLimits_ne_pyIndex (a :: t) T.limits
-                  exact this ho
-        · rename_i r hne ho
+        · rename_i r ho
           injection h with h; subst h
-          refine ⟨[], .items its, rest, rfl, by simp, ?_, Or.inr (Or.inr ⟨its, names, r, rfl, by simp, hn, ho⟩)⟩
+          refine ⟨[], .items its, rest, rfl, by simp, ?_, Or.inr (Or.inr (Or.inl ⟨its, names, r, rfl, by simp, hn, ho⟩))⟩
           rw [schedOk_iff T hT]; rintro ⟨names', h1, h2⟩
           rw [hn] at h1; injection h1 with h1; subst h1; rw [ho] at h2; cases h2
         · rename_i ho
-          obtain ⟨pre, s', post, h1, h2, h3, h4⟩ := ih (i + 1) (fun x hx => hseq x (by simp [hx])) h
+          obtain ⟨pre, s', post, h1, h2, h3, h4⟩ := ih (i + 1) h
           refine ⟨.items its :: pre, s', post, by simp [h1], ?_, h3, ?_⟩
           · intro x hx
             rcases List.mem_cons.1 hx with rfl | hx
